@@ -10,18 +10,20 @@ namespace Exa.Attr7606
 open Exa Exa.Wire
 open Exa.Generated.AttrTable (Row)
 
-theorem postLoop_taw (st : LoopSt) (h : st.taw = true) : postLoop st = st := by
+theorem postLoop_taw (asn4 : Bool) (st : LoopSt) (h : st.taw = true) : postLoop asn4 st = st := by
   simp [postLoop, h]
 
-theorem postLoop_kept_congr (a b : LoopSt) (hk : a.kept = b.kept) (ht : a.taw = b.taw) :
-    (postLoop a).kept = (postLoop b).kept := by
+theorem postLoop_kept_congr (asn4 : Bool) (a b : LoopSt) (hk : a.kept = b.kept) (ht : a.taw = b.taw) :
+    (postLoop asn4 a).kept = (postLoop asn4 b).kept := by
   unfold postLoop
   rw [ht, hk]
   split
   · exact hk
   · split
     · rfl
-    · exact hk
+    · split
+      · rfl
+      · exact hk
 
 theorem blockOf_of_split {body w blk n : Bytes} (h : splitBody body = .ok (w, blk, n)) : blockOf body = blk := by
   simp [blockOf, h]
@@ -57,16 +59,16 @@ theorem decodeParts_block {fx : Fix} {tb : List Row} {xp : XP} {body : Bytes} {p
               simp only [h4, Except.ok.injEq] at h
               subst h; rfl
 
-theorem assemble_attrs (fx : Fix) (pt : Parts) : (assemble fx pt).attrs = reportedAttrs pt.st := by
+theorem assemble_attrs (pt : Parts) : (assemble pt).attrs = reportedAttrs pt.st := by
   unfold assemble; split <;> rfl
 
-theorem assemble_taw (fx : Fix) (pt : Parts) : (assemble fx pt).taw = pt.st.taw := by
+theorem assemble_taw (pt : Parts) : (assemble pt).taw = pt.st.taw := by
   unfold assemble; split <;> rfl
 
-/-- With the F5 repair a marked UPDATE announces nothing and withdraws every route it carries. -/
-theorem assemble_withdraws (fx : Fix) (pt : Parts) (hf : fx.assemble = true) (ht : pt.st.taw = true) :
-    (assemble fx pt).announce = [] ∧ ∀ r ∈ pt.nlri, r ∈ (assemble fx pt).withdraw := by
-  simp only [assemble, hf, ht, Bool.and_self, if_true, true_and]
+/-- A marked UPDATE announces nothing and withdraws every route it carries. -/
+theorem assemble_withdraws (pt : Parts) (ht : pt.st.taw = true) :
+    (assemble pt).announce = [] ∧ ∀ r ∈ pt.nlri, r ∈ (assemble pt).withdraw := by
+  simp only [assemble, ht, if_true, true_and]
   intro r hr
   exact List.mem_append_right _ hr
 
@@ -74,9 +76,9 @@ theorem assemble_withdraws (fx : Fix) (pt : Parts) (hf : fx.assemble = true) (ht
 theorem decode_malformed {fx : Fix} {tb : List Row} {xp : XP} {body : Bytes} {rep : Rep} (htb : TableOk tb)
     (h : decodeWith fx tb xp body = .ok rep)
     (pre : List Tlv) (t : Tlv) (post : List Tlv) (hocc : occurrences body = pre ++ t :: post)
-    (hfirst : ∀ u ∈ pre, u.code ≠ t.code) (hm : malformed xp.p t = true) (hg : GapFree fx tb xp t) :
+    (hfirst : ∀ u ∈ pre, u.code ≠ t.code) (hm : malformed xp.p t = true) (hg : GapFree fx xp t) :
     rep = emptyRep ∨
-    (∃ pt, decodeParts fx tb xp body = .ok pt ∧ rep = assemble fx pt ∧ pt.st.taw = true) ∨
+    (∃ pt, decodeParts fx tb xp body = .ok pt ∧ rep = assemble pt ∧ pt.st.taw = true) ∨
     (rfc7606Class t.code = some .discard ∧
       ∃ st', blockAttrs fx tb xp (pre ++ post) (cutOf (blockOf body)) = .ok st' ∧ rep.attrs = reportedAttrs st') := by
   unfold decodeWith at h
@@ -100,14 +102,14 @@ theorem decode_malformed {fx : Fix} {tb : List Row} {xp : XP} {body : Bytes} {re
         rcases loop_malformed htb pre t post initSt s1 hl hfirst (by simp [initSt]) hm hg with htaw | ⟨hcls, s1', hl', hk, ht⟩
         · left
           refine ⟨pt, rfl, h.symm, ?_⟩
-          rw [← hb, postLoop_taw _ (by simp [htaw])]
+          rw [← hb, postLoop_taw _ _ (by simp [htaw])]
           simp [htaw]
         · right
-          refine ⟨hcls, postLoop { s1' with taw := s1'.taw || cutOf (blockOf body) }, ?_, ?_⟩
+          refine ⟨hcls, postLoop xp.p.asn4 { s1' with taw := s1'.taw || cutOf (blockOf body) }, ?_, ?_⟩
           · simp [blockAttrs, hl']
           · rw [← h, assemble_attrs, ← hb]
             unfold reportedAttrs
-            rw [postLoop_kept_congr _ { s1' with taw := s1'.taw || cutOf (blockOf body) } (by simp [hk]) (by simp [ht])]
+            rw [postLoop_kept_congr _ _ { s1' with taw := s1'.taw || cutOf (blockOf body) } (by simp [hk]) (by simp [ht])]
 
 /-! ### errors of the attribute block -/
 
@@ -160,7 +162,7 @@ def DecFailOk : Dec → Prop
 theorem decide1_fail {fx : Fix} {tb : List Row} {xp : XP} (hv : ValueErrClassed tb) (present : List Nat) (t : Tlv) :
     DecFailOk (decide1 fx tb xp present t) := by
   unfold decide1
-  by_cases ho : (fx.overrun && t.overrun) = true
+  by_cases ho : t.overrun = true
   · simp only [ho, if_true, if_false, Bool.false_eq_true, DecFailOk]
   · simp only [ho, if_true, if_false, Bool.false_eq_true]
     cases hrow : rowOf tb t.code with
@@ -214,10 +216,7 @@ theorem decide1_fail {fx : Fix} {tb : List Row} {xp : XP} (hv : ValueErrClassed 
           · simp only [hw, if_true, if_false, Bool.false_eq_true]
             by_cases hd : row.discard = true
             · simp only [hd, if_true, if_false, Bool.false_eq_true, DecFailOk]
-            · simp only [hd, if_true, if_false, Bool.false_eq_true]
-              by_cases hf : fx.flagCls = true
-              · simp only [hf, if_true, if_false, Bool.false_eq_true, DecFailOk]
-              · simp only [hf, if_true, if_false, Bool.false_eq_true, DecFailOk]
+            · simp only [hd, if_true, if_false, Bool.false_eq_true, DecFailOk]
 
 theorem loop_fail {fx : Fix} {tb : List Row} {xp : XP} (hv : ValueErrClassed tb) : ∀ (ts : List Tlv) (st : LoopSt) (e : Fail),
     loop fx tb xp ts st = .error e → FailOk e
@@ -248,7 +247,7 @@ theorem parseBlock_fail {fx : Fix} {tb : List Row} {xp : XP} (hv : ValueErrClass
 
 /-! ### overrun -/
 
-theorem loop_overrun {fx : Fix} {tb : List Row} {xp : XP} (hf : fx.overrun = true)
+theorem loop_overrun {fx : Fix} {tb : List Row} {xp : XP}
     (pre : List Tlv) (t : Tlv) (post : List Tlv) (st0 st : LoopSt)
     (h : loop fx tb xp (pre ++ t :: post) st0 = .ok st) (ho : t.overrun = true) : st.taw = true := by
   rw [loop_append] at h
@@ -256,13 +255,13 @@ theorem loop_overrun {fx : Fix} {tb : List Row} {xp : XP} (hf : fx.overrun = tru
   | error e => simp [h1] at h
   | ok s1 =>
     simp only [h1] at h
-    rw [loop_cons, decide1_overrun fx tb xp _ t hf ho] at h
+    rw [loop_cons, decide1_overrun fx tb xp _ t ho] at h
     simp only [applyDec] at h
     exact loop_taw_mono fx tb xp post _ st h rfl
 
-theorem decode_overrun {fx : Fix} {tb : List Row} {xp : XP} {body : Bytes} {rep : Rep} (hf : fx.overrun = true)
+theorem decode_overrun {fx : Fix} {tb : List Row} {xp : XP} {body : Bytes} {rep : Rep}
     (h : decodeWith fx tb xp body = .ok rep) (t : Tlv) (ht : t ∈ occurrences body) (ho : t.overrun = true) :
-    rep = emptyRep ∨ ∃ pt, decodeParts fx tb xp body = .ok pt ∧ rep = assemble fx pt ∧ pt.st.taw = true := by
+    rep = emptyRep ∨ ∃ pt, decodeParts fx tb xp body = .ok pt ∧ rep = assemble pt ∧ pt.st.taw = true := by
   unfold decodeWith at h
   by_cases he : eorFast body = true
   · simp only [he, if_true, Except.ok.injEq] at h
@@ -282,10 +281,15 @@ theorem decode_overrun {fx : Fix} {tb : List Row} {xp : XP} {body : Bytes} {rep 
       | error e => simp [hl] at hb
       | ok s1 =>
         simp only [hl, Except.ok.injEq] at hb
-        have htaw := loop_overrun hf pre t post initSt s1 hl ho
+        have htaw := loop_overrun pre t post initSt s1 hl ho
         refine ⟨pt, rfl, h.symm, ?_⟩
-        rw [← hb, postLoop_taw _ (by simp [htaw])]
+        rw [← hb, postLoop_taw _ _ (by simp [htaw])]
         simp [htaw]
+
+/-- Only the AS_PATH / AS4_PATH decoders depend on the open repair. -/
+theorem gapFree_of_not_aspath (fx : Fix) (xp : XP) (t : Tlv) (h2 : t.code ≠ 2) (h17 : t.code ≠ 17) : GapFree fx xp t := by
+  unfold GapFree valOutcome
+  simp [h2, h17]
 
 /-! ### the property as a predicate on one body, and how to refute it on a witness -/
 
